@@ -1579,8 +1579,10 @@ func (t *Tokenizer) readPunctuation() (models.Token, error) {
 		if t.pos.Index < len(t.input) {
 			nextR, _ := utf8.DecodeRune(t.input[t.pos.Index:])
 			if nextR == '$' || isIdentifierStart(nextR) {
-				// Try to read the opening tag
+				// Try to read the opening tag. If it turns out not to be one, the '$' stands
+				// alone and the characters looked at are handed back to be tokenized next.
 				tagStart := t.pos.Index
+				afterDollar := t.pos
 				if nextR == '$' {
 					// $$ case - empty tag
 				} else {
@@ -1592,6 +1594,7 @@ func (t *Tokenizer) readPunctuation() (models.Token, error) {
 						}
 						if !isIdentifierChar(cr) {
 							// Not a valid tag, treat as standalone $
+							t.pos = afterDollar
 							return models.Token{Type: models.TokenTypePlaceholder, Value: "$"}, nil
 						}
 						t.pos.AdvanceRune(cr, cs)
@@ -1599,10 +1602,12 @@ func (t *Tokenizer) readPunctuation() (models.Token, error) {
 				}
 				// Check for closing $ of the tag
 				if t.pos.Index >= len(t.input) {
+					t.pos = afterDollar
 					return models.Token{Type: models.TokenTypePlaceholder, Value: "$"}, nil
 				}
 				closingR, closingSize := utf8.DecodeRune(t.input[t.pos.Index:])
 				if closingR != '$' {
+					t.pos = afterDollar
 					return models.Token{Type: models.TokenTypePlaceholder, Value: "$"}, nil
 				}
 				tag := string(t.input[tagStart:t.pos.Index])
